@@ -258,7 +258,11 @@ def run_placer(case):
                              "objects" % case["placer"],
                              (InsufficientResourceError,
                               InvalidConstraintError)):
-                        call_placer(case, vr, nets, machine, cons, vobj)
+                        first = call_placer(case, vr, nets, machine, cons,
+                                            vobj)
+                        if isinstance(first, dict):
+                            first.clear()     # the caller's to do with as
+                            #                   it likes
                 except (InsufficientResourceError, InvalidConstraintError):
                     pass
             with sut("place[%s]" % case["placer"],
